@@ -67,9 +67,18 @@ class Lin:
             return self.scale(other.const)
         if self.is_const():
             return other.scale(self.const)
-        # product of two non-constant forms: opaque atom, canonical order
-        a, b = sorted([self.key(paren=True), other.key(paren=True)])
-        return Lin.atom(f"{a}*{b}")
+        # product of two non-constant forms: expanded into a polynomial whose monomials x*y (factors sorted) are atoms,
+        # so that (i - 1) * (n + 1) + j and i * (n + 1) + j differ by the linear form -n - 1
+        out = Lin(None, self.const * other.const)
+        for a, ca in self.terms.items():
+            out = out + Lin({a: ca * other.const})
+            for b, cb in other.terms.items():
+                fa = a.split("*") if _is_product(a) else [a]
+                fb = b.split("*") if _is_product(b) else [b]
+                out = out + Lin({"*".join(sorted(fa + fb)): ca * cb})
+        for b, cb in other.terms.items():
+            out = out + Lin({b: cb * self.const})
+        return out
 
     __rmul__ = __mul__
 
@@ -162,6 +171,20 @@ class Lin:
             g = 1
         f = f.scale(Fraction(den, g))
         return f, flipped
+
+
+def _is_product(atom: str) -> bool:
+    """a monomial made by __mul__: factors joined by '*' with no bracket nesting around the stars"""
+    depth = 0
+    star = False
+    for ch in atom:
+        if ch in "([":
+            depth += 1
+        elif ch in ")]":
+            depth -= 1
+        elif ch == "*" and depth == 0:
+            star = True
+    return star
 
 
 def _fr(c: Fraction) -> str:
